@@ -211,6 +211,7 @@ def handle (op : String) (j : Json) : Except String Json := do
       | "new_from" => pure (.newFrom o (← natField x "j") (boolFieldD x "comment" false))
       | "append_lines_of" => pure (.appendLinesOf o (← natField x "j"))
       | "new_with_header" => pure (.newWithHeader o (← natField x "j") (← natField x "h"))
+      | "clone" => pure (.clone o (← natField x "j"))
       | _ => pure (.on o (← hop x))
     let ops ← (← arrField j "steps").mapM hop2
     let obs := run2 objs ops
@@ -225,7 +226,7 @@ def handle (op : String) (j : Json) : Except String Json := do
         let init : List Json := objs.map fun o => Json.mkObj [("lines", SL o.tb.lines), ("str", S o.str)]
         let target : HOp2 → Option Nat
           | .on o (.append _) | .on o (.trim _) | .on o (.indent _) | .on o (.setIndentor _) | .on o (.setLines _) => some o
-          | .appendRef o _ | .newFrom o _ _ | .appendLinesOf o _ | .newWithHeader o _ _ => some o
+          | .appendRef o _ | .newFrom o _ _ | .appendLinesOf o _ | .newWithHeader o _ _ | .clone o _ => some o
           | _ => none
         (ops.zip ((init :: snaps).zip snaps)).flatMap fun (op, before, after) =>
           (List.range before.length).flatMap fun i =>
